@@ -317,3 +317,195 @@ Proof.
 Qed.
 
 End PartB.
+
+(* ------------------------------------------------------------------------------------------ *)
+(* the invariant and the induction                                                              *)
+
+Section Sound.
+Variable A : Type.
+Variable ops : app_ops A.
+Variable p : params.
+Hypothesis Happs : apps_total A ops.
+Hypothesis Hbv : builder_valid p.
+Hypothesis Hdata : app_sends_data A ops.
+
+(* while the pass is supervised: the station's last_bus_activity is not later than the monitor's reference
+   instant and not earlier than the end of the last transmission the monitor knows; and unless the monitor
+   expects a spurious growth (bytes left behind a consumed telegram, or arrived while the station did not
+   look), pending_bytes covers the receive buffer *)
+Definition LV (f : fdl) (buf : bytes) (g : mon2) : Prop :=
+  forall att, f_state f = CheckTokenPass att ->
+    exists l r, f_lba f = Some l /\ l_ref g = Some r /\ l <= r /\
+      (forall e, l_txend g = Some e -> e <= l) /\
+      (l_spur g = false -> (length buf <= f_pending f)%nat).
+
+Definition JL (n : nat) (f : fdl) (apps : list A) (buf : bytes) (tl : Z) (m : mon) (g : mon2) : Prop :=
+  JA A p n f apps buf tl m g /\ LV f buf g.
+
+Lemma kind_ctp s : kind_of s = KCheckTokenPass -> exists att, s = CheckTokenPass att.
+Proof. destruct s; cbn; try discriminate. intros _. eexists. reflexivity. Qed.
+
+Lemma app_len_le {X} (a b : list X) : (length (a ++ b) <= length a)%nat -> b = [].
+Proof. rewrite app_length. destruct b; cbn; [reflexivity|lia]. Qed.
+
+(* the rule is silent *)
+Lemma live_ok n f apps buf tl m g now busy nb f' o apps' calls :
+  Base A p n f apps buf tl m -> LV f buf g ->
+  poll ops f now (mkPhyIn busy (buf ++ nb)) apps = Ok (f', o, apps', calls) ->
+  ~ In R11_supervision_never_ends (y_e_live p m g (poll_event now busy (buf ++ nb) f' o calls)).
+Proof.
+  intros HB HL E Hin. set (s := poll_event now busy (buf ++ nb) f' o calls) in *.
+  unfold y_e_live in Hin.
+  destruct (y_quiet m g s && y_expired p g s && negb (y_acted m s)) eqn:Ec; [|contradiction].
+  apply andb_true_iff in Ec. destruct Ec as [Ec Hact]. apply andb_true_iff in Ec. destruct Ec as [Hq Hex].
+  assert (Hk0 : y_k0 m = KCheckTokenPass).
+  { destruct (y_waiting_c12 m); destruct (state_kind_eqb (y_k0 m) KCheckTokenPass) eqn:Ek;
+      destruct (state_kind_eqb (y_k0 m) KAwaitDataResponse); cbn in Hin;
+      try (destruct (y_k0 m); try discriminate Ek; reflexivity);
+      repeat (destruct Hin as [Hin|Hin]; try discriminate Hin); contradiction. }
+  pose proof (x_k0_base A p n _ _ _ _ _ HB) as Hkf. change (x_k0 m) with (y_k0 m) in Hkf. rewrite Hk0 in Hkf.
+  symmetry in Hkf. apply kind_ctp in Hkf. destruct Hkf as [att Es].
+  destruct (HL att Es) as (l & r & El & Er & Hle & Htxe & Hpn).
+  destruct HB as [R Hp Hn Hv Hleft Hpd Hb Htl].
+  (* quiet *)
+  unfold y_quiet, y_looks, y_ongoing, y_grew, y_spur_now, y_now in Hq. cbn [s poll_event s_busy s_rx FdlOracle.s_now] in Hq.
+  apply andb_true_iff in Hq. destruct Hq as [Hq Hsp]. apply andb_true_iff in Hq. destruct Hq as [Hlk Hgr].
+  apply andb_true_iff in Hlk. destruct Hlk as [Hbusy Hong].
+  destruct busy; [discriminate Hbusy|]. clear Hbusy.
+  apply negb_true_iff, Nat.ltb_ge in Hgr. rewrite Hleft in Hgr. apply app_len_le in Hgr. subst nb. rewrite app_nil_r in *.
+  (* expired *)
+  unfold y_expired, y_now in Hex. rewrite Er in Hex. cbn [s poll_event FdlOracle.s_now] in Hex. apply Z.ltb_lt in Hex.
+  (* not acted *)
+  unfold y_acted, y_consumed, y_k1, y_k0, y_post, y_pre in Hact.
+  cbn [s poll_event s_consumed s_tx s_calls s_view view_of v_kind] in Hact. rewrite Hv in Hact. cbn [view_of v_kind] in Hact.
+  apply negb_true_iff in Hact. repeat (apply orb_false_elim in Hact; destruct Hact as [Hact ?]).
+  match goal with H : negb (state_kind_eqb _ _) = false |- _ => apply negb_false_iff in H; rename H into Hkk end.
+  match goal with H : match tx o with Some _ => true | None => false end = false |- _ => rename H into Htx end.
+  rewrite Es in Hkk. cbn [kind_of] in Hkk.
+  (* the slot timer of the model has run out *)
+  pose proof (bv_slot _ _ R) as Hslot. rewrite Hp in Hslot.
+  assert (Hexp : slot_expired f now (mkPhyIn false buf) = true).
+  { unfold slot_expired, lba_seen, C11Proofs.predicted. cbn [tx_busy rx]. rewrite El, Hp.
+    destruct (Z.leb_spec now l) as [C|_]; [lia|]. cbn [negb andb].
+    assert (Hcov : (length buf <= f_pending f)%nat).
+    { apply negb_true_iff in Hsp. unfold y_looks, y_ongoing, y_now in Hsp.
+      cbn [s poll_event s_busy FdlOracle.s_now negb] in Hsp. rewrite Hong in Hsp.
+      destruct (l_spur g); [|apply Hpn; reflexivity].
+      cbn [andb] in Hsp. destruct buf; [cbn; lia|discriminate Hsp]. }
+    destruct (Nat.ltb_spec (f_pending f) (length buf)) as [C|_]; [lia|]. apply Z.ltb_lt. lia. }
+  destruct (check_pass_poll A ops f now _ apps f' o apps' calls att Es E) as [_ [_ [_ D]]]. rewrite Hexp in D.
+  destruct D as [_ [r1 [_ [[_ [Hs _]]|[r' [_ [_ [T _]]]]]]]].
+  - rewrite Hs in Hkk. discriminate Hkk.
+  - rewrite T in Htx. discriminate Htx.
+Qed.
+
+Lemma zmax_opt_ge o x : x <= zmax_opt o x.
+Proof. destruct o; cbn; lia. Qed.
+Lemma zmax_opt_ge_l r x : r <= zmax_opt (Some r) x.
+Proof. cbn. lia. Qed.
+
+(* the invariant is kept *)
+Lemma lv_poll n f apps buf tl m g now busy nb f' o apps' calls :
+  Base A p n f apps buf tl m -> UB f tl g -> LV f buf g -> tl < now ->
+  poll ops f now (mkPhyIn busy (buf ++ nb)) apps = Ok (f', o, apps', calls) ->
+  LV f' (rx_left o) (y_g' p n m g (poll_event now busy (buf ++ nb) f' o calls)).
+Proof.
+  intros HB HU HL Hlt E att' Hst'. set (s := poll_event now busy (buf ++ nb) f' o calls).
+  destruct HB as [R Hp Hn Hv Hleft Hpd Hb Htl].
+  change (l_ref (y_g' p n m g s)) with (y_ref2 p m g s).
+  change (l_txend (y_g' p n m g s)) with (y_txend p g s).
+  change (l_spur (y_g' p n m g s)) with (y_spur m g s).
+  unfold y_ref2, y_txend, y_tx_end, y_now. cbn [s poll_event s_tx FdlOracle.s_now].
+  destruct (tx o) as [wire|] eqn:Etx.
+  - (* the pass, a retry, or the pass after a removal *)
+    pose proof (poll_lba_case A ops _ _ _ _ _ _ _ _ _ E) as LC. rewrite Etx in LC.
+    destruct LC as [wire' l0 Ew L' _ _ _ _|C _|C _|C _ _|C _ _]; try discriminate C. injection Ew as <-.
+    rewrite dur_is_prop. rewrite Hp in L'.
+    eexists. eexists. split; [exact L'|]. split; [reflexivity|]. split; [apply zmax_opt_ge|].
+    split; [intros e He; injection He as <-; lia|].
+    intros _. exact (enter_ctp_covered A ops _ _ _ _ _ _ _ _ _ _ _ E Etx Hst').
+  - destruct (stay_ctp A ops _ _ _ _ _ _ _ _ _ _ E Etx Hst') as [[att Es] Hcase].
+    destruct (HL att Es) as (l & r & El & Er & Hle & Htxe & Hpn).
+    rewrite El in Hcase. cbn [gv] in Hcase.
+    unfold y_ref1, y_happened, y_grew, y_consumed, y_spur_now, y_looks, y_ongoing, y_now.
+    cbn [s poll_event s_busy s_rx s_consumed FdlOracle.s_now]. rewrite Er, Hleft.
+    destruct Hcase as [(Hbp & Hl' & Hp' & Hrx')|(Hb0 & Hp0 & Hl' & Hrx' & Hp')].
+    + (* the poll does not look at the buffer *)
+      rewrite Hrx', Nat.sub_diag. cbn [Nat.eqb negb].
+      assert (Hnl : negb busy && negb (match l_txend g with Some e => now <=? e | None => false end) = false).
+      { destruct busy; [reflexivity|]. cbn [orb negb andb] in *. unfold C11Proofs.predicted in Hbp. rewrite El in Hbp.
+        apply Z.leb_le in Hbp. destruct (HU l El) as [C|(e & He & C)]; [lia|]. rewrite He.
+        destruct (Z.leb_spec now e); [reflexivity|lia]. }
+      match goal with |- context [if ?c then Some (zmax_opt (Some r) now) else Some r] => destruct c eqn:Ehap end.
+      all: eexists; eexists; (split; [exact Hl'|]); (split; [reflexivity|]); split.
+      1:{ cbn [zmax_opt]. lia. }
+      2:{ destruct busy; [rewrite orb_true_r in Ehap; discriminate Ehap|].
+          cbn [orb] in Hbp. unfold C11Proofs.predicted in Hbp. rewrite El in Hbp. apply Z.leb_le in Hbp. lia. }
+      all: split; [intros e He; specialize (Htxe e He); lia|].
+      all: unfold y_spur, y_consumed, y_looks, y_ongoing, y_grew, y_now;
+        cbn [s poll_event s_busy s_rx s_consumed FdlOracle.s_now]; rewrite Hrx', Nat.sub_diag, Hnl, Hleft; cbn [Nat.eqb negb];
+        intros Hs; apply orb_false_elim in Hs; destruct Hs as [Hs1 Hs2]; apply Nat.ltb_ge in Hs2; apply app_len_le in Hs2; subst nb;
+        rewrite app_nil_r, Hp'; exact (Hpn Hs1).
+    + (* the poll looks at the buffer and the station waits on *)
+      subst busy. unfold C11Proofs.predicted in Hp0. rewrite El in Hp0. apply Z.leb_gt in Hp0.
+      cbv zeta in Hl', Hp'.
+      assert (Hlooks : negb (match l_txend g with Some e => now <=? e | None => false end) = true).
+      { destruct (l_txend g) as [e|] eqn:He; [|reflexivity]. specialize (Htxe e eq_refl).
+        destruct (Z.leb_spec now e); [lia|reflexivity]. }
+      assert (Hhap : Nat.ltb (f_pending f) (length (buf ++ nb)) = true ->
+                     (Nat.ltb (length buf) (length (buf ++ nb)) || false ||
+                      negb (Nat.eqb (length (buf ++ nb) - length (rx_left o)) 0) ||
+                      l_spur g && (negb false && negb (match l_txend g with Some e => now <=? e | None => false end)) &&
+                      match buf ++ nb with [] => false | _ => true end) = true).
+      { intros Efresh. apply Nat.ltb_lt in Efresh. destruct (Nat.ltb_spec (length buf) (length (buf ++ nb))) as [C|C]; [reflexivity|].
+        apply app_len_le in C. subst nb. rewrite app_nil_r in *.
+        destruct (l_spur g); [|specialize (Hpn eq_refl); lia].
+        rewrite Hlooks. cbn [negb andb]. destruct buf; [cbn in Efresh; lia|]. rewrite !orb_true_r. reflexivity. }
+      match goal with |- context [if ?c then Some (zmax_opt (Some r) now) else Some r] => destruct c eqn:Ehap end.
+      all: eexists; eexists; (split; [exact Hl'|]); (split; [reflexivity|]); split.
+      1:{ cbn [zmax_opt]. destruct (Nat.ltb _ _); lia. }
+      2:{ destruct (Nat.ltb (f_pending f) (length (buf ++ nb))); [discriminate (Hhap eq_refl)|lia]. }
+      all: split; [intros e He; specialize (Htxe e He); destruct (Nat.ltb _ _); lia|].
+      all: intros _; rewrite Hp';
+        destruct (decode_spec (buf ++ nb)); rewrite Hrx'; cbn [length]; try lia;
+        destruct (Nat.ltb_spec (f_pending f) (length (buf ++ nb))); lia.
+Qed.
+
+Lemma lv_api a f buf m g f' :
+  LV f buf g -> api_result p a f = Ok f' -> LV f' buf (snd (mon_after_api a (view_of f') m g)).
+Proof.
+  intros HL E att Hst. destruct a; cbn [api_result mon_after_api snd] in *.
+  - destruct (fdl_new_fields _ _ E) as (S1 & _). rewrite S1 in Hst. discriminate Hst.
+  - unfold set_online, set_state in E. injection E as <-. exact (HL att Hst).
+  - unfold set_offline, set_state in E. destruct (fdl_new_fields _ _ E) as (S1 & _). rewrite S1 in Hst. discriminate Hst.
+  - discriminate E.
+Qed.
+
+(* C11_supervision_liveness_sound *)
+Theorem supervision_liveness_sound (apps : list A) (ins : list minput) :
+  ins_ok 0 ins ->
+  forall k r, In (k, r) (monitor p (length apps) (model_transcript A ops p apps ins)) -> r <> R11_supervision_never_ends.
+Proof.
+  intros Hok.
+  apply (generic_sound_transcript A ops p (length apps) (fun r => r <> R11_supervision_never_ends) (JL (length apps)) (fun _ => True));
+    try assumption; try reflexivity.
+  - discriminate.
+  - intros a f apps0 buf tl m g f' [HJ HL] E _. split; [exact (JA_api A p Hbv _ _ _ _ _ _ _ _ _ HJ E)|exact (lv_api _ _ _ _ _ _ HL E)].
+  - intros f apps0 buf tl m g now busy nb f' o apps' calls [HJ HL] Hlt Hnow Hnb E _.
+    assert (Hlen : length apps0 = length apps) by (destruct HJ as ((((HB & _) & _) & _) & _); exact (b_n _ _ _ _ _ _ _ _ HB)).
+    pose proof HJ as (_ & _ & HU & _).
+    destruct (JA_poll A ops p Happs Hbv Hdata _ _ _ _ _ _ _ _ _ _ _ _ _ _ Hlen HJ Hlt Hnow Hnb E) as (H1 & H2 & HJ' & HB & _).
+    split; [|split; [|split; [exact HJ'|]]].
+    + rewrite H1. intros r Hr C. subst r. apply (x_e12b_only p m _) in Hr. discriminate Hr.
+    + rewrite H2. intros r Hr C. subst r. apply in_app_or in Hr. destruct Hr as [Hr|Hr].
+      * apply (y_e_sweep_only p m g _) in Hr. discriminate Hr.
+      * apply in_app_or in Hr. destruct Hr as [Hr|Hr].
+        -- apply (y_e_scan_only p m g _) in Hr. discriminate Hr.
+        -- exact (live_ok _ _ _ _ _ _ _ _ _ _ _ _ _ _ HB HL E Hr).
+    + rewrite mon_poll2_eq. cbn [fst]. exact (lv_poll _ _ _ _ _ _ _ _ _ _ _ _ _ _ HB HU HL Hlt E).
+  - intros f0 apps0 E Hn _. split; [exact (JA_init A p Hbv _ _ _ E Hn)|].
+    intros att Hst. destruct (fdl_new_fields _ _ E) as (S1 & _). rewrite S1 in Hst. discriminate Hst.
+  - apply transcript_ok_true.
+Qed.
+
+End Sound.
